@@ -45,6 +45,16 @@ claimed = {
    note="Found and fixed two defects (see known_findings.json). Arithmetic kernels (rate*size/1000, value*1000/threshold) are decided in an integer encoding justified per query by interval analysis; signer sizes are assumptions; signing is not run.",
    technique="SSA symbolic execution + SMT (bit-vector and interval-justified integer encoding), replay of counterexamples",
    design="5 C07"),
+ "C17": dict(
+   text="Symbolic execution of snacl's CryptoKey.Encrypt/Decrypt, SecretKey.Marshal/Unmarshal/DeriveKey/NewSecretKey, GenerateCryptoKey with symbolic key, plaintext, nonce source, passphrase, parameters, tamper position and mask, truncation length: round trip; any other key, any one-byte alteration anywhere, any truncation fails with an error and nil data; nonce read completely and independently per encryption; short random read fails; parameters round-trip and every other length is malformed; a derived key accepts exactly its passphrase and compares the whole digest.",
+   note="Relative to ideal-AEAD / ideal-KDF / collision-free-hash stubs (what is decided is snacl's use of the primitives). Plaintext <=4 bytes, passphrase <=3 bytes.",
+   technique="SSA symbolic execution + SMT with ideal-crypto stubs, symbolic tamper position",
+   design="5 C17"),
+ "C18": dict(
+   text="Exhaustive schedule exploration of the real ConcurrentQueue (NewConcurrentQueue/Start/ChanIn/ChanOut/Stop) under the executor's cooperative scheduler: every interleaving of producer, worker and consumer and every ready-case pick, for k<=3 (thorough 4) symbolic items and buffer sizes 0..1 (thorough 2), slow and concurrent consumer; plus the worker started from EVERY internal state (overflow list and output-buffer occupancy within bounds) followed by sends/receives - asserting FIFO delivery without loss or duplication, a producer that never blocks on the consumer (deadlock detection), and worker termination after Stop.",
+   note="Schedules are enumerated (structural forks). Bounds on items/buffer/list. Data-race freedom assumed. Native replay cannot force a schedule: schedule-dependent counterexamples are confirmed natively only if they reproduce under the Go scheduler.",
+   technique="SSA symbolic execution with exhaustive interleaving exploration (bounded model checking of schedules)",
+   design="5 C18"),
 }
 
 not_applicable = {
